@@ -81,6 +81,31 @@ def run(chk, prog):
                        'in another flow' % (fn.short, what), fn.loc(bb), {'witness_blocks': w})
     chk.floor(RA, 'functions replacing the current flow / its call stack', n_inst, 3)
 
+    # ---- (a1) the look-ahead copy carries the parked flows
+    RE = 'C10.look-ahead-copy-keeps-the-parked-flows'
+    chk.rule(RE, 'The state the engine runs a look-ahead on replaces the live state when the look-ahead is committed: '
+             'copy_and_start_patching fills the copy\'s named_flows from the original\'s on every path on which the '
+             'original has some (shared with C01.snapshot-copies-whole-state), so committing a look-ahead in one flow '
+             'never drops the flows that are parked.')
+    cps = prog.fn('StoryState::copy_and_start_patching')
+    if chk.anchor(RE, 'StoryState::copy_and_start_patching', cps):
+        gcp = cfg(cps)
+        ins = [bb for bb, t in cps.calls() if callee_short(t) in ('HashMap::insert', 'HashMap::extend', 'HashMap::clone_from')
+               and 'field:StoryState::named_flows' in tr.prov(cps, t['args'][0])]
+        whole = [bb for bb, si, s_ in cps.stmts() if s_['k'] == 'assign' and fields_of_place(s_['pl'])
+                 and fields_of_place(s_['pl'])[-1] == ('StoryState', 'named_flows')]
+        src_ok = any('field:StoryState::named_flows' in tr.prov(cps, t['args'][2]) or
+                     'field:StoryState::named_flows' in tr.prov(cps, t['args'][1])
+                     for bb, t in cps.calls() if bb in ins and len(t['args']) > 2) or \
+            any(s_['rv']['k'] == 'use' and 'field:StoryState::named_flows' in tr.prov(cps, s_['rv']['op'])
+                for bb, si, s_ in cps.stmts() if bb in whole and s_['k'] == 'assign'
+                and fields_of_place(s_['pl']) and fields_of_place(s_['pl'])[-1] == ('StoryState', 'named_flows'))
+        chk.decide(RE, chk.key(RE, 'parked-flows-copied'), (bool(whole) or bool(ins)) and src_ok,
+                   'the copy receives a map filled from the original\'s parked flows',
+                   'copy_and_start_patching no longer fills the copy\'s named_flows from the original\'s: when the '
+                   'look-ahead copy becomes the live state (every committed look-ahead) the parked flows are gone',
+                   cps.loc(0))
+
     # ---- (a2) the text/tag caches follow the output stream
     RD = 'C10.output-caches-follow-the-stream'
     chk.rule(RD, 'current_text / current_tags are caches of the current flow\'s output stream, refreshed only when '
